@@ -100,6 +100,8 @@ type Spec struct {
 	ContinueVal string   // the Lean term a `continue` stands for ("" = continue unsupported)
 	ParamNames  []string // canonical names of the Go function's parameters, by position ("" = leave): a renamed parameter is aliased back
 	AppendEffect map[string]string // `x = append(x, v)` where v is this (canonical) identifier -> "leanVar := term" binding it performs
+	CallRepl    map[string]string // call name -> Lean term for the call's value, whatever its arguments (their value is pinned by another unit)
+	AddrIsSome  bool     // pointers to local integers model optional values: `&x` is `some x`, `nil` (as a returned or assigned value) is `none`
 	Prelude     string   // Lean let-bindings placed before the translated statements (initial values of state variables)
 	Canon       bool     // function-level aliases (prepare): renamed parameters and hoisted pure reads are substituted back before markers and keys are matched
 	Inline      bool     // translate calls to single-result functions / methods declared in the same file by inlining their bodies
@@ -431,6 +433,9 @@ func (t *tr) expr(e ast.Expr) string {
 		case "false":
 			return "false"
 		case "nil":
+			if t.sp.AddrIsSome {
+				return "none"
+			}
 			failf(e, "nil outside a replaced comparison")
 		}
 		return leanIdent(x.Name)
@@ -449,6 +454,10 @@ func (t *tr) expr(e ast.Expr) string {
 		return "(" + t.expr(x.X) + ")"
 	case *ast.UnaryExpr:
 		switch x.Op {
+		case token.AND:
+			if id, ok := x.X.(*ast.Ident); ok && t.sp.AddrIsSome {
+				return "(some " + t.expr(id) + ")"
+			}
 		case token.NOT:
 			return "(!" + t.expr(x.X) + ")"
 		case token.SUB:
@@ -561,6 +570,9 @@ func (t *tr) expr(e ast.Expr) string {
 		}
 	}
 	if c, ok := e.(*ast.CallExpr); ok {
+		if r, ok := t.sp.CallRepl[callName(c)]; ok {
+			return r
+		}
 		if out, ok := t.inlineCall(c); ok {
 			return out
 		}
@@ -596,7 +608,39 @@ func (t *tr) isInputCall(e ast.Expr) bool {
 }
 
 // assigned collects Lean names of variables assigned (=, ++, --) in a statement list.
-func (t *tr) assigned(b []ast.Stmt, out map[string]bool) {
+func (t *tr) assigned(b []ast.Stmt, outer map[string]bool) {
+	// names defined (`:=`, `var`) in this statement list are local to it: assignments to them do not escape
+	out := map[string]bool{}
+	local := map[string]bool{}
+	defer func() {
+		for v := range out {
+			if !local[v] {
+				outer[v] = true
+			}
+		}
+	}()
+	for _, s := range b {
+		switch d := s.(type) {
+		case *ast.AssignStmt:
+			if d.Tok == token.DEFINE {
+				for _, l := range d.Lhs {
+					if id, ok := l.(*ast.Ident); ok {
+						local[leanIdent(id.Name)] = true
+					}
+				}
+			}
+		case *ast.DeclStmt:
+			if gd, ok := d.Decl.(*ast.GenDecl); ok {
+				for _, sp := range gd.Specs {
+					if vs, ok := sp.(*ast.ValueSpec); ok {
+						for _, n := range vs.Names {
+							local[leanIdent(n.Name)] = true
+						}
+					}
+				}
+			}
+		}
+	}
 	for _, s := range b {
 		switch x := s.(type) {
 		case *ast.AssignStmt:
@@ -705,6 +749,8 @@ func (t *tr) ret(r *ast.ReturnStmt) string {
 			k = "ErrKind.passthrough"
 		} else if n := callName(last); n == "fmt.Errorf" || n == "errors.New" {
 			k = "ErrKind.fresh"
+		} else if _, isLit := last.(*ast.CompositeLit); isLit {
+			k = "ErrKind.fresh" // an error value made on the spot (RspError{…})
 		} else {
 			failf(r, "errkind: unrecognised error result %s", src(last))
 		}
@@ -787,6 +833,23 @@ func (t *tr) inIgnoreLHS(name string) bool {
 	return false
 }
 
+// effectWithArgs substitutes `$i` in an effect by the translation of the call's i-th argument (`nil` is `none`).
+func (t *tr) effectWithArgs(eff string, call *ast.CallExpr) string {
+	for i, a := range call.Args {
+		ph := fmt.Sprintf("$%d", i)
+		if strings.Contains(eff, ph) {
+			v := ""
+			if id, ok := a.(*ast.Ident); ok && id.Name == "nil" {
+				v = "none"
+			} else {
+				v = t.expr(a)
+			}
+			eff = strings.ReplaceAll(eff, ph, v)
+		}
+	}
+	return eff
+}
+
 // appendEffectVar: the Lean variable an `x = append(x, v)` statement sets through Spec.AppendEffect, or "".
 func (t *tr) appendEffectVar(x *ast.AssignStmt) string {
 	if len(x.Rhs) != 1 || len(t.sp.AppendEffect) == 0 {
@@ -841,13 +904,7 @@ func (t *tr) block(b []ast.Stmt, tail string, ind string) string {
 	case *ast.ExprStmt:
 		x = &ast.ExprStmt{X: t.subst(x.X)}
 		if eff, ok := prefixLookup(t.sp.Effects, callName(x.X)); ok {
-			call := x.X.(*ast.CallExpr)
-			for i, a := range call.Args {
-				ph := fmt.Sprintf("$%d", i)
-				if strings.Contains(eff, ph) {
-					eff = strings.ReplaceAll(eff, ph, t.expr(a))
-				}
-			}
+			eff = t.effectWithArgs(eff, x.X.(*ast.CallExpr))
 			return "let " + eff + "\n" + ind + t.block(rest, tail, ind)
 		}
 		if t.ignoredCall(x.X) {
@@ -939,6 +996,20 @@ func (t *tr) block(b []ast.Stmt, tail string, ind string) string {
 				if eff, ok := t.sp.AppendEffect[norm(src(t.subst(c.Args[len(c.Args)-1])))]; ok {
 					return "let " + eff + "\n" + ind + t.block(rest, tail, ind)
 				}
+			}
+		}
+		if len(x.Rhs) == 1 {
+			if eff, ok := prefixLookup(t.sp.Effects, callName(t.subst(x.Rhs[0]))); ok {
+				eff = t.effectWithArgs(eff, t.subst(x.Rhs[0]).(*ast.CallExpr))
+				if t.opaque == nil {
+					t.opaque = map[string]bool{}
+				}
+				for _, l := range x.Lhs {
+					if id, isId := l.(*ast.Ident); isId && id.Name != "_" {
+						t.opaque[id.Name] = true
+					}
+				}
+				return "let " + eff + "\n" + ind + t.block(rest, tail, ind)
 			}
 		}
 		if len(x.Rhs) == 1 {
@@ -1126,30 +1197,71 @@ func (t *tr) block(b []ast.Stmt, tail string, ind string) string {
 	case *ast.BlockStmt:
 		return t.block(append(append([]ast.Stmt{}, x.List...), rest...), tail, ind)
 	case *ast.SwitchStmt:
-		// tagless `switch { case cond: ... default: ... }` (no init, no fallthrough/break): an if-chain
-		// in source order; Go evaluates the case conditions top to bottom and runs the first true one.
-		if x.Tag != nil || x.Init != nil {
-			failf(s, "only tagless switch statements without init are supported")
+		// `switch [tag] { case …: … default: … }` (no init): an if-chain in source order. Go evaluates the cases top to bottom
+		// and runs the first that matches (default when none does, wherever it stands); `fallthrough` continues with the next
+		// clause's body.
+		if x.Init != nil {
+			failf(s, "switch statements with an init statement are not supported")
 		}
-		var def *ast.CaseClause
-		var clauses []*ast.CaseClause
-		for _, c := range x.Body.List {
-			cc := c.(*ast.CaseClause)
-			for _, bs := range cc.Body {
-				if br, ok := bs.(*ast.BranchStmt); ok {
+		n := len(x.Body.List)
+		eff := make([][]ast.Stmt, n)
+		for i := n - 1; i >= 0; i-- {
+			cc := x.Body.List[i].(*ast.CaseClause)
+			body := cc.Body
+			falls := false
+			if len(body) > 0 {
+				if br, ok := body[len(body)-1].(*ast.BranchStmt); ok && br.Tok == token.FALLTHROUGH {
+					falls, body = true, body[:len(body)-1]
+				}
+			}
+			for _, bs := range body {
+				if br, ok := bs.(*ast.BranchStmt); ok && br.Tok != token.CONTINUE {
 					failf(br, "branch statement %s inside switch unsupported", src(br))
 				}
 			}
-			if cc.List == nil {
-				def = cc
-			} else {
-				clauses = append(clauses, cc)
+			eff[i] = append([]ast.Stmt{}, body...)
+			if falls {
+				if i+1 >= n {
+					failf(cc, "fallthrough in the last clause")
+				}
+				eff[i] = append(eff[i], eff[i+1]...)
 			}
 		}
+		tag := ""
+		if x.Tag != nil {
+			tag = t.expr(x.Tag)
+		}
+		// a clause whose whole body is `fallthrough` only adds its values to the next clause (`case a: fallthrough; case b: …`
+		// is `case a, b: …` as long as no clause in between could match first — they are adjacent, so none is in between)
+		extra := map[int][]ast.Expr{}
+		skip := map[int]bool{}
+		for i := 0; i+1 < n; i++ {
+			cc := x.Body.List[i].(*ast.CaseClause)
+			nx := x.Body.List[i+1].(*ast.CaseClause)
+			if cc.List != nil && nx.List != nil && len(cc.Body) == 1 {
+				if br, ok := cc.Body[0].(*ast.BranchStmt); ok && br.Tok == token.FALLTHROUGH {
+					extra[i+1] = append(append(extra[i+1], extra[i]...), cc.List...)
+					skip[i] = true
+				}
+			}
+		}
+		defIdx := -1
 		out := ""
-		for _, cc := range clauses {
+		for i, c := range x.Body.List {
+			cc := c.(*ast.CaseClause)
+			if cc.List == nil {
+				defIdx = i
+				continue
+			}
+			if skip[i] {
+				continue
+			}
 			var cs []string
-			for _, e := range cc.List {
+			for _, e := range append(append([]ast.Expr{}, extra[i]...), cc.List...) {
+				if tag != "" {
+					cs = append(cs, "(decide ("+tag+" = "+t.expr(e)+"))")
+					continue
+				}
 				if src(e) == "err != nil" && t.pendingErr != "" {
 					cs = append(cs, t.pendingErr)
 					t.pendingErr = ""
@@ -1161,10 +1273,10 @@ func (t *tr) block(b []ast.Stmt, tail string, ind string) string {
 			if len(cs) > 1 {
 				c = "(" + strings.Join(cs, " || ") + ")"
 			}
-			out += "if " + c + " then\n" + ind + "  " + t.block(append(append([]ast.Stmt{}, cc.Body...), rest...), tail, ind+"  ") + "\n" + ind + "else\n" + ind
+			out += "if " + c + " then\n" + ind + "  " + t.block(append(append([]ast.Stmt{}, eff[i]...), rest...), tail, ind+"  ") + "\n" + ind + "else\n" + ind
 		}
-		if def != nil {
-			return out + t.block(append(append([]ast.Stmt{}, def.Body...), rest...), tail, ind)
+		if defIdx >= 0 {
+			return out + t.block(append(append([]ast.Stmt{}, eff[defIdx]...), rest...), tail, ind)
 		}
 		return out + t.block(rest, tail, ind)
 	}
